@@ -578,6 +578,13 @@ def gen_plan(seed: int, mode: str, scale: int = 1):
             k = key_for(p, lang, opt, filt if opt else None, endian if opt else "both")
             if k:
                 op["key"] = k
+            if mode == "c09" and rng.chance(0.4):
+                # the API's verdict on the same path in the same state, for cross-checking the exit status
+                tmp = state["sid"]
+                state["sid"] += 1
+                ops.append({"op": "parse", "sid": tmp, "path": path, "trad": bool(opt)})
+                ops.append({"op": "drop", "sid": tmp})
+                op["paired_parse"] = len(ops) - 2
             ops.append(op)
 
         return [step]
